@@ -16,7 +16,9 @@ func (p *planner) analyzeScript() {
 		if ppl.LabelFilter != nil {
 			p.simpleLabelOperation[i] = true
 		}
-		if ppl.Parser != nil {
+		// a stage that changes the label set ends the part of the pipeline that can be decided on the
+		// stored labels: `| drop a | a="b"` has to see the labels without `a`
+		if ppl.Parser != nil || ppl.Drop != nil {
 			break
 		}
 	}
